@@ -3,11 +3,19 @@
 (* documents outside the enumerated universe (more objects and properties,     *)
 (* arbitrary identifiers, other YAML styles) and logs one line per successful  *)
 (* run:                                                                        *)
-(*   {ev:"run", inp, run, doc, args, structs, hash}                            *)
+(*   {ev:"run", inp, run, doc, args, structs, hash, rel}                       *)
 (* doc / args in the shapes of Codegen.tla, structs = what go/parser found in  *)
 (* typedef_output.go (file order), hash = SHA-256 of its bytes, inp = identity *)
 (* of the input (document, arguments) - checked, not trusted: two lines with   *)
-(* the same inp must carry the same doc and args.                              *)
+(* the same inp must carry the same doc and args.  rel = what the run found in *)
+(* its directory: "fresh" (no output file), the output of the same input      *)
+(* ("over_own_output"), or the output an earlier run of ANOTHER input has left *)
+(* there ("over_longer_output", "over_shorter_output", "over_equal_output":    *)
+(* its length against this input's output).  The driver runs every input in a fresh directory first    *)
+(* and then again in a directory used by other inputs (other arguments, a      *)
+(* shorter and a longer document).  seen is keyed by the input alone: rel is   *)
+(* no part of the input, so a run over an existing file must be identical to   *)
+(* the run in the fresh directory; rel only names the detail of a rejection.   *)
 (*                                                                             *)
 (* A line is accepted iff the observed structs meet the contract (Verdict)     *)
 (* and the Observe machine accepts the observation (identical to the first     *)
@@ -30,8 +38,11 @@ Spec == Init /\ [][Next]_vars
 
 SameInput(e) == Observed(seen, e.inp) => seen[e.inp].doc = e.doc /\ seen[e.inp].args = e.args
 
+Rels == {"fresh", "over_own_output", "over_longer_output", "over_shorter_output", "over_equal_output"}
+
 LineVerdict(e) ==
-    IF ~WF(e.doc) \/ ~SameInput(e) \/ e.args.form \notin {"no_ignore", "with_ignore"} THEN "bad_trace"
+    IF ~WF(e.doc) \/ ~SameInput(e) \/ e.args.form \notin {"no_ignore", "with_ignore"} \/ e.rel \notin Rels
+    THEN "bad_trace"
     ELSE LET sv == Verdict(e.doc, e.args, e.structs)
          IN IF sv # "ok" THEN sv
             ELSE IF ~ObsAccepts(seen, e.inp, Obs(e)) THEN "nondeterministic_bytes"
@@ -45,7 +56,8 @@ Details(e) ==
              b == e.structs
              d == (IF StructOrderDiffers(a, b) THEN {"struct_order"} ELSE {})
                   \cup (IF FieldOrderDiffers(a, b) THEN {"field_order"} ELSE {})
-         IN IF d = {} THEN {"content"} ELSE d
+         IN IF e.rel # "fresh" THEN {e.rel}      \* differs from the fresh directory's: by what it found
+            ELSE IF d = {} THEN {"content"} ELSE d
     ELSE IF c = "wrong_field_type" THEN {WrongTypeOf(e.doc, e.args, e.structs)}
     ELSE {}
 
@@ -55,7 +67,9 @@ Diagnose ==
     l <= Len(Trace) =>
         LET e == Trace[l] IN
         Emit([n |-> l, inp |-> e.inp, run |-> e.run, verdict |-> LineVerdict(e), details |-> Details(e),
-              shape |-> Shape(e.doc), form |-> e.args.form,
+              shape |-> Shape(e.doc), form |-> e.args.form, rel |-> e.rel,
+              carried |-> IF LineVerdict(e) = "wrong_field_type"
+                          THEN WrongTypeCarriesId(e.doc, e.args, e.structs) ELSE FALSE,
               drift |-> IF LineVerdict(e) = "bad_trace" THEN FALSE ELSE NameDrift(e.doc, e.structs),
               dupnames |-> DuplicateNames(e.structs)])
 =============================================================================
